@@ -9,7 +9,7 @@ from hypothesis import strategies as st
 
 from pyoma2.functions import gen
 
-from ..core import J, Sub, raised, sut
+from ..core import J, Sub, raised, rng_of, sut
 
 PROPERTY = "C18"
 RULE = (
@@ -230,6 +230,13 @@ def judge_mac_shape(case):
         if not j.check(r.shape == (p, q) and r2.shape == (q, p), "MAC-shape", lambda: f"MAC(X,A).shape={r.shape}, expected {(p, q)}; MAC(A,X).shape={r2.shape}"):
             return j
     j.check(np.allclose(r.real, r2.real.T, rtol=1e-9, atol=1e-12), "MAC-symmetry", lambda: f"MAC(X,A)={r.tolist()} MAC(A,X)^T={r2.T.tolist()}")
+    if X.shape[0] == A.shape[0]:
+        # the two sets as column groups of one table (e.g. the modes of one result split in two)
+        parent = np.hstack([X, A])
+        rv = sut(gen.MAC, parent[:, :p], parent[:, p:])
+        if j.check(not raised(rv), "MAC-raises", lambda: f"column groups of one array: {rv!r}"):
+            rv = np.asarray(rv).reshape(r.shape) if np.asarray(rv).size == r.size else np.asarray(rv)
+            j.check(rv.shape == r.shape and np.allclose(rv.real, r.real, rtol=1e-9, atol=1e-12), "MAC-views", lambda: f"MAC of two column groups of one array {np.asarray(rv).tolist()} differs from MAC of separate copies {r.tolist()}")
     # reference values (independent formula)
     ref = np.empty((p, q))
     for a in range(p):
@@ -392,6 +399,15 @@ def judge_sets(case):
                 one = _pure(j, gen.MCF, X[:, k].copy())
                 j.check(not raised(one) and abs(float(np.asarray(one).reshape(-1)[0]) - r[k]) <= 1e-12, "MCF-set-value", lambda: f"column {k}: {r[k]!r} vs single-shape value {one!r}")
                 j.check(-1e-9 <= r[k] <= 1 + 1e-9, "MCF-bounds", lambda: f"{r[k]!r}")
+    if p >= 2 and not raised(r) and np.asarray(r).reshape(-1).shape == (p,):
+        # every shape of the set multiplied by its own factor (moduli 1e-6 .. 1e6): one value per shape, unchanged
+        u = rng_of(int(abs(X[0, 0].real) * 1e6) % (2**31) + p).uniform(-6, 6, size=p)
+        u[0], u[-1] = -6.0, 6.0
+        rs = _pure(j, gen.MCF, (X * (10.0**u)[None, :] * np.exp(0.7j)).copy())
+        if j.check(not raised(rs) and np.asarray(rs).reshape(-1).shape == (p,), "MCF-set-raises", lambda: f"rescaled columns: {rs!r}"):
+            rs = np.asarray(rs).reshape(-1)
+            bad = [k for k in range(p) if np.linalg.norm(X[:, k]) > 1e-3 and abs(rs[k] - np.asarray(r).reshape(-1)[k]) > 1e-7]
+            j.check(not bad, "MCF-set-scale", lambda: f"MCF of the set changed for columns {bad} when every column was multiplied by its own factor: {np.asarray(r).reshape(-1).tolist()} -> {rs.tolist()}")
     q = min(p, A.shape[1])
     c = np.linspace(-2.0, 3.0, q) + 0.25
     r = _pure(j, gen.MSF, X[:, :q].real.copy(), (X[:, :q].real * c[None, :]).copy())
